@@ -73,6 +73,9 @@ std::string job( int t, int r)
       // first entries: a constraint evaluation that keeps state outside the handler mixes up the lists
       bool  extra = false;
       ah.addArgument( "e,extra", DEST_VAR( extra), "extra flag");
+      // a scalar destination with a value formatter (the formatted text is built per assignment)
+      std::string  tag;
+      ah.addArgument( "t,tag", DEST_VAR( tag), "tag")->addFormat( pa::uppercase());
       int  prog = -1;
       ah.addArgument( "p,prog", DEST_VAR( prog), "value from the program's argument file");
       ah.addConstraint( pa::all_of( (t + r) % 2 == 0 ? "i;n;l" : "l;i;n"));
@@ -92,7 +95,8 @@ std::string job( int t, int r)
       std::string  line = std::string( (t + r) % 3 == 0 ? "-c 5 " : "")
                           + "-i " + ints_txt + " --strs " + strs_txt + " -u " + upper_txt
                           + " -l " + std::to_string( 1 + (t + r) % 50)
-                          + " -n thread" + std::to_string( t);
+                          + " -n thread" + std::to_string( t)
+                          + " -t tag" + std::string( 1 + (t + r) % 5, static_cast< char>( 'a' + t % 26)) + "q" + std::to_string( t * 31 + r);
       if ((t + r) % 2 == 0) line += " -f";
       if ((t + r) % 7 == 6) line += " -l 99";          // violates the upper limit: rejected
       if ((t + r) % 11 == 10) line += " --unknown 1";  // unknown argument: rejected
@@ -108,7 +112,7 @@ std::string job( int t, int r)
       for (auto const& v : strs) res << '[' << v << ']';
       res << " upper=";
       for (auto const& v : upper) res << '[' << v << ']';
-      res << " level=" << level << " count=" << count << " flag=" << flag << " name=" << name;
+      res << " level=" << level << " count=" << count << " flag=" << flag << " name=" << name << " tag=" << tag;
    } catch (const std::exception& e)
    {
       res << "exception: " << e.what();
